@@ -43,6 +43,125 @@ def known_names(F):
     return F._known_names
 
 
+def scope_prefixes(mod):
+    """The classes / namespaces a rule module is about: its qualified-name literals and their parents."""
+    import inspect
+    import re as _re
+    srcs = [inspect.getsource(mod)]
+    for extra in getattr(mod, "ANCHOR_SOURCES", []):
+        with open(os.path.join(VERIF, extra)) as fh:
+            srcs.append(fh.read())
+    pre = set()
+    for src in srcs:
+        for m in _re.finditer(r"[\"']((?:dispenso)::[A-Za-z_0-9:]+)", src):
+            q = m.group(1).rstrip(":")
+            pre.add(q)
+            if q.count("::") >= 2:
+                pre.add(q.rsplit("::", 1)[0])
+    pre.discard("dispenso")
+    pre.discard("dispenso::detail")
+    return sorted(pre)
+
+
+def known_field_names(F, prefixes=None):
+    """Field names (record layouts and member accesses) in the part of the program under `prefixes`."""
+    def inscope(q):
+        return not prefixes or any(q == p or q.startswith(p + "::") or q.startswith(p + "<") for p in prefixes)
+    k = set()
+    for r in F.records.values():
+        if inscope(r.get("qname") or ""):
+            for f in r.get("fields", []):
+                k.add(f.get("name"))
+    for fn in F.fns:
+        if not (inscope(fn.root_parent().qname) or inscope(fn.qname)):
+            continue
+        for _, nd in fn.all_nodes():
+            if nd.get("fname"):
+                k.add(nd["fname"])
+    k.discard(None)
+    return k
+
+
+def known_short_names(F, prefixes=None):
+    """Unqualified identifiers (fields, functions, classes, parameters, locals, constants) that occur in
+    the part of the parsed program a rule module is about (functions and records under `prefixes`;
+    the whole program if none)."""
+    cache = getattr(F, "_known_short", None)
+    if cache is None:
+        cache = F._known_short = {}
+    key = tuple(prefixes or ())
+    if key in cache:
+        return cache[key]
+    def inscope(q):
+        return not prefixes or any(q == p or q.startswith(p + "::") or q.startswith(p + "<") for p in prefixes)
+    k = set()
+    for r in F.records.values():
+        if inscope(r.get("qname") or ""):
+            k.add((r.get("qname") or "").rsplit("::", 1)[-1])
+            for f in r.get("fields", []):
+                k.add(f.get("name"))
+    for fn in F.fns:
+        rq = fn.root_parent().qname
+        if not (inscope(rq) or inscope(fn.qname)):
+            continue
+        k.add(rq.rsplit("::", 1)[-1])
+        for prm in fn.params:
+            k.add(prm.get("name"))
+        for _, nd in fn.all_nodes():
+            if nd.get("name"):
+                k.add(nd["name"])
+            if nd.get("fname"):
+                k.add(nd["fname"])
+            c = nd.get("callee")
+            if c:
+                k.add(c.rsplit("::", 1)[-1])
+            for cp in nd.get("captures", []) or []:
+                k.add(cp.get("name"))
+    k.discard(None)
+    cache[key] = k
+    return k
+
+
+def module_literals(mod):
+    import inspect
+    import re as _re
+    srcs = [inspect.getsource(mod)]
+    for extra in getattr(mod, "ANCHOR_SOURCES", []):
+        with open(os.path.join(VERIF, extra)) as fh:
+            srcs.append(fh.read())
+    out = set()
+    for src in srcs:
+        # drop the docstring / comments: only code literals count
+        body = _re.sub(r'\"\"\".*?\"\"\"', "", src, flags=_re.S)
+        body = _re.sub(r"#.*", "", body)
+        # literals used as keys of the fact dictionaries (e.get("name"), ev["args"], "loop" in e) are the
+        # rule language's own vocabulary, not program identifiers
+        body = _re.sub(r"(?:\.get\(|\[)\s*[\"'][A-Za-z_][A-Za-z_0-9]*[\"']", "", body)
+        body = _re.sub(r"[\"'][A-Za-z_][A-Za-z_0-9]*[\"']\s+(?:not\s+)?in\s+(?:e|ev|nd|node|x|blk|t|c|o|a|l|r)\b", "", body)
+        body = _re.sub(r"\.get\(\s*[\"']k[\"']\s*\)\s*(?:==|!=|in)\s*(?:\([^)]*\)|[\"'][A-Za-z_]+[\"'])", "", body)
+        for m in _re.finditer(r"[\"']([A-Za-z_][A-Za-z_0-9]{2,})[\"']", body):
+            out.add(m.group(1))
+    # words of the fact language / of the rules' own state machines that also happen to be identifiers
+    return out - {"this", "param", "local", "index", "other", "ptr", "size", "global", "tls", "staticmember", "staticlocal", "call", "decl", "bin",
+                  "var", "member", "init", "return", "new", "lambda", "construct", "cast", "cond", "null", "int", "throw", "name", "type", "base", "args",
+                  "kind", "loop", "move", "forward", "get", "count", "begin", "end", "data", "value", "first", "second", "empty", "back", "swap"}
+
+
+def missing_short_anchors(mod, F):
+    """Identifiers (field, function, parameter, constant names) that the rule module matched on the
+    tree its instances were confirmed on (frozen in props/anchors.json by tools/gen_anchors.py) and
+    that no longer occur anywhere in the parsed program: a rename. Same consequence as a lost
+    qualified name: exit 2, no VIOLATION."""
+    pid = mod.__name__.rsplit(".", 1)[-1]
+    ap = os.path.join(VERIF, "props", "anchors.json")
+    if not os.path.exists(ap):
+        return []
+    with open(ap) as fh:
+        frozen = json.load(fh).get(pid, [])
+    known = known_field_names(F, scope_prefixes(mod))
+    return sorted(n for n in frozen if n not in known)
+
+
 def missing_anchors(mod, F):
     """The qualified names a rule module is written against ("dispenso::...") that no longer exist in
     the parsed program. A rule whose vocabulary has vanished (a renamed field or function) can
